@@ -218,11 +218,16 @@ def req_deep_histories(rng, check, tier):
     only as a float and the reader re-derives the integer, so restore-and-continue must be exercised where rounding matters
     (k/sqrt(2)^j not near an even integer: k = 30, 50, ...), with enough further updates to reach the next compactions"""
     hs = []
-    for k in ([30, 50] if tier == "quick" else [30, 50, 22, 36, 70, 100]):
+    # also the k whose shrunken section size is EXACTLY an odd integer in float (k = 10, 18 -> 5.0, 9.0; k = 50 -> 25.0 after the second
+    # doubling, n ~ 40000): there "nearest even" is a tie and the reader must break it the way the writer did
+    plans = [(k, (2000, 900, 1400)) for k in ([30, 50] if tier == "quick" else [30, 50, 22, 36, 70, 100])]
+    plans += [(k, (2600, 2800, 1500)) for k in ([10, 18] if tier == "quick" else [10, 18, 20, 14, 26])]
+    plans += [(50, (41000, 6000))]
+    for k, steps in plans:
         for hra in (0, 1):
             s = Script(rng, "req", rng.choice(["f32", "f64"]) if "f32" in TYPES else rng.choice(TYPES), check, tier)
             s.new(0, k, hra)
-            for n in (2000, 900, 1400):
+            for n in steps:
                 s.upd(0, n)
                 s.chk(0, "deep")
             hs.append(s.lines)
